@@ -87,6 +87,15 @@ def tokens(p):
         if e['k'] == 'call':
             n = short(e['callee']).split('::')[-1]
             if n in REL and ('SplaySet' in e['callee'] or n in ('compute_fields', 'possible_intersection')):
+                # references to temporaries of an expanded helper: the value they had when the call was made
+                rv = e.get('ref_vals', {})
+                eargs = []
+                for i_, a_ in enumerate(e['args']):
+                    s_ = strip_upd(a_)
+                    if s_[0] == 'ref' and s_[1][0][0] == 'loc' and s_[1] not in p.final.mem and i_ in rv:
+                        a_ = ('refval', rv[i_])
+                    eargs.append(a_)
+                e = dict(e, args=tuple(eargs))
                 if n == 'compute_fields':
                     args = [ent(e['args'][0], p), opt_name(e['args'][1], p), ent(e['args'][2], p)]
                 elif n == 'possible_intersection':
